@@ -90,10 +90,8 @@ h("ki2_copy_match_back", I + "/ki2_writer.rs", "inflate::verif_kani::ki2_writer"
 h("ki3_window_extend_ring", I + "/ki3_window.rs", "inflate::verif_kani::ki3_window", ["C02", "C04", "C10", "C13"],
   kernel="KI3", expect_s=20, timeout=600,
   functions=["Window::extend"], bounds="W = 8 (+64 padding), two extends with symbolic slices <= 12 bytes each, no checksum")
-h("ki3_window_extend_adler", I + "/ki3_window.rs", "inflate::verif_kani::ki3_window", ["C08", "C02"],
-  kernel="KI3", expect_s=120, timeout=1200, weight=2,
-  functions=["Window::extend", "adler32::adler32", "adler32::adler32_fold_copy", "adler32::generic::*"],
-  bounds="W = 4, two extends <= 6 bytes each, any valid running Adler-32; reference = RFC 1950 recurrence")
+# ki3_window_extend_adler (real adler32 fused into the window copy, W = 4): did not finish in 1200 s; the fused-copy path is covered by
+# kc9_adler_piecewise_fold_copy (adler32_fold_copy) + ki3_window_extend_ring (ring) + ki7 (which bytes are folded): not registered
 h("ki3_get_dictionary_order", I + "/ki3_window.rs", "inflate::verif_kani::ki3_window", ["C13", "C02"],
   kernel="KI3", expect_s=30, timeout=600,
   functions=["inflate::get_dictionary", "Window::extend"], bounds="W = 8, any history from two extends <= 12 bytes each")
@@ -350,8 +348,7 @@ h("kc9_crc_braid_table", CB, CBP, ["C09"], kernel="KC9", expect_s=60, timeout=90
   functions=["Crc32BraidTable::<5>::TABLE"], bounds="all 256 x 8 entries of the N = 5 braid table (up to 320 bit steps each)")
 h("kc9_crc_naive_step", CB, CBP, ["C09"], kernel="KC9", expect_s=30, timeout=900,
   functions=["crc32::braid::crc32_naive_inner"], bounds="every 32-bit crc, one and two symbolic bytes (induction step of the byte kernel)")
-h("kc9_crc_word_step", CB, CBP, ["C09"], kernel="KC9", expect_s=200, timeout=1800, weight=2,
-  functions=["crc32::braid::crc32_words_inner"], bounds="every 32-bit crc x three concrete 64-bit words vs their 8 bytes through the byte kernel")
+# kc9_crc_word_step (word kernel vs byte kernel): did not terminate in 1800 s even with concrete words and a symbolic crc: not registered
 h("kc9_crc_braid_short", CB, CBP, ["C09"], kernel="KC9", expect_s=120, timeout=1800, weight=2,
   functions=["crc32::braid::crc32_braid::<5>", "crc32_naive_inner", "crc32_words_inner"],
   bounds="symbolic start, 0..=3 symbolic bytes; reference = bitwise CRC-32",
@@ -367,18 +364,15 @@ h("kc9_multmodp_identity", CC, CCP, ["C09"], kernel="KC9", expect_s=60, timeout=
   functions=["multmodp"], bounds="every 32-bit b: x^0 is a left and right identity (GF(2)-linearity of the multiplier did not terminate in 1200 s and is not claimed)")
 AD = "zlib-rs/src/adler32/verif_kani.rs"
 ADP = "adler32::verif_kani"
-h("kc9_adler_closed_form_is_rfc", AD, ADP, ["C09"], kernel="KC9", expect_s=60, timeout=1200,
+h("kc9_adler_closed_form_is_rfc", AD, ADP, ["C09"], kernel="KC9", tier="thorough", expect_s=650, timeout=2400,
   functions=["(harness) closed form vs RFC 1950 recurrence"], bounds="length 0 and 3, every valid start, symbolic data")
 h("kc9_adler_len_0_1_2_3", AD, ADP, ["C09", "C08"], kernel="KC9", expect_s=60, timeout=1200,
   functions=["adler32::adler32", "generic::adler32_rust", "adler32_len_1", "adler32_len_16"],
   bounds="lengths 0, 1, 2, 3 (concrete), every valid start, symbolic data; reference = closed form of the RFC recurrence")
-h("kc9_adler_len_4_5", AD, ADP, ["C09"], kernel="KC9", expect_s=120, timeout=1800, weight=2,
+h("kc9_adler_len_4_5", AD, ADP, ["C09"], kernel="KC9", tier="thorough", expect_s=1300, timeout=3600, weight=2,
   functions=["adler32::adler32", "generic::adler32_rust", "adler32_len_16"], bounds="lengths 4 and 5, every valid start, symbolic data")
-for _l in (8, 16, 17):
-    h("kc9_adler_len_%d" % _l, AD, ADP, ["C09"], kernel="KC9", tier="thorough", expect_s=1800, timeout=5400, weight=2, mem_gb=16,
-      functions=["adler32::adler32", "generic::adler32_rust", "adler32_len_16", "adler32_len_64"],
-      bounds="length %d (concrete), every valid start, symbolic data; lengths 15/16/17 in one harness did not terminate in 2400 s" % _l)
-h("kc9_adler_piecewise_fold_copy", AD, ADP, ["C09", "C08"], kernel="KC9", expect_s=200, timeout=1800, weight=2,
+# lengths 8 and 16 (each on its own: > 1 h) and 15/16/17 together (2400 s) did not terminate: not registered, not claimed
+h("kc9_adler_piecewise_fold_copy", AD, ADP, ["C09", "C08"], kernel="KC9", tier="thorough", expect_s=700, timeout=2400, weight=2,
   functions=["adler32::adler32", "adler32::adler32_fold_copy"], bounds="5 symbolic bytes cut at any point, every valid start; result stays a valid Adler-32 value")
 
 # ---------------------------------------------------------------- Engine B (MIR -> SMT-LIB) queries
